@@ -210,6 +210,41 @@ where
 		drop(c);
 		report(shape, "boxed.new+drop", &[]);
 	}
+	// dropped while the owning thread is unwinding (plain, and with a guard still alive)
+	reset();
+	{
+		let _ = std::panic::catch_unwind(std::panic::AssertUnwindSafe(|| {
+			let _c = BoxedLockCollection::new(mk());
+			panic!("unwinding with a collection alive");
+		}));
+		report(shape, "boxed.unwind+drop", &[]);
+	}
+	reset();
+	{
+		let _ = std::panic::catch_unwind(std::panic::AssertUnwindSafe(|| {
+			let c = BoxedLockCollection::new(mk());
+			let key = ThreadKey::get().expect("key");
+			let _g = c.lock(key);
+			panic!("unwinding with a guard alive");
+		}));
+		report(shape, "boxed.unwind-with-guard+drop", &[]);
+	}
+	reset();
+	{
+		let _ = std::panic::catch_unwind(std::panic::AssertUnwindSafe(|| {
+			let _c = OwnedLockCollection::new(mk());
+			panic!("unwinding with a collection alive");
+		}));
+		report(shape, "owned.unwind+drop", &[]);
+	}
+	reset();
+	{
+		let _ = std::panic::catch_unwind(std::panic::AssertUnwindSafe(|| {
+			let _c = RetryingLockCollection::new(BoxedLockCollection::new(mk()));
+			panic!("unwinding with a collection alive");
+		}));
+		report(shape, "retry(boxed).unwind+drop", &[]);
+	}
 	reset();
 	{
 		let c = BoxedLockCollection::try_new(mk()).expect("owned input has no duplicates");
@@ -324,6 +359,7 @@ where
 }
 
 fn main() {
+	std::panic::set_hook(Box::new(|_| {}));
 	let m = || Mutex::new(fresh());
 	let r = || RwLock::new(fresh());
 	// tuples
